@@ -133,7 +133,8 @@ class Box(AbstractSpace[Float[Array, " ..."], None]):
         return f"Box(low={self.low}, high={self.high})"
 
     def __hash__(self) -> int:
-        return hash((self.low.tobytes(), self.high.tobytes()))
+        # -0.0 == 0.0 under __eq__, so both must hash alike: adding 0.0 maps -0.0 to +0.0
+        return hash(((self.low + 0.0).tobytes(), (self.high + 0.0).tobytes()))
 
     def flatten_sample(self, sample: Float[Array, " ..."]) -> Float[Array, " n"]:
         return jnp.asarray(sample, dtype=float).ravel()
